@@ -29,3 +29,19 @@ Example C13_strict_breaks :
   emit true [mk_proc (fun _ => true) false; mk_proc (fun _ => false) false] [mk_pstate [] 0; mk_pstate [] 0] 7
   = ([mk_pstate [7] 0; mk_pstate [] 0], true).
 Proof. reflexivity. Qed.
+
+(* ---- processors that do not raise but consume what an event carries (fix f0e90c6: a RouteDecisionEvent holds its own copy of
+        a multi-target decision) ---- *)
+From HG Require Import DispatchPayload.
+
+Theorem C13_payload_copy_protects : forall h d acts l,
+  l < length h -> pcell (emit_decision true h d acts) l = pcell h l.
+Proof. exact copy_protects_everything. Qed.
+Print Assumptions C13_payload_copy_protects.
+
+(* handing processors the scheduler's own list is refuted: one consuming processor empties the decision *)
+Theorem C13_payload_alias_refuted :
+  pcell (emit_decision false [[11; 12]%positive] 0 [PKeep; PClear]) 0 = [] /\
+  pcell (emit_decision true [[11; 12]%positive] 0 [PKeep; PClear]) 0 = [11; 12]%positive.
+Proof. exact aliased_decision_refuted. Qed.
+Print Assumptions C13_payload_alias_refuted.
